@@ -282,7 +282,7 @@ def run_core(cfg, monitors=("dev", "link", "mem", "ref", "rsp"), plans=None, swe
     rnd0 = random.Random(seed * 7919 + 1)
     state = dict(done=[False] * nports, outstanding=0, sweep_done=not sweep, issued=0)
     drain = cfg.get("drain", 1500)
-    max_cycles = cfg.get("max_cycles", 400000)
+    max_cycles = cfg.get("max_cycles", 150000)
     stop_at = cfg.get("confirm_hint")      # confirmation re-runs on the stock simulator stop shortly after the failing event
 
     def initword(key):
